@@ -56,7 +56,8 @@ type Result struct {
 	NHl      int              `json:"n_hl"`
 	Probes   int              `json:"probes"`
 	Tasks    int              `json:"tasks"`
-	Crashed  bool             `json:"crashed,omitempty"` // the worker process died (panic on a goroutine the probe cannot recover)
+	Deadlock bool             `json:"deadlock,omitempty"` // timeout with every goroutine blocked (nothing running or runnable)
+	Crashed  bool             `json:"crashed,omitempty"`  // the worker process died (panic on a goroutine the probe cannot recover)
 	ErrCodes map[string]int   `json:"err_codes,omitempty"`
 	PhaseMs  map[string]int64 `json:"phase_ms,omitempty"`
 }
@@ -442,6 +443,29 @@ func runWild(d *Doc) (res Result) {
 	return
 }
 
+var goroutineHeader = regexp.MustCompile(`(?m)^goroutine \d+ \[([a-zA-Z ]+)[,\]]`)
+
+// allBlocked: three stack dumps 150 ms apart, none showing a goroutine that runs or could run
+// (besides the one taking the dump): the document is deadlocked, not slow.
+func allBlocked() bool {
+	for i := 0; i < 3; i++ {
+		buf := make([]byte, 1<<18)
+		n := runtime.Stack(buf, true)
+		busy := 0
+		for _, m := range goroutineHeader.FindAllStringSubmatch(string(buf[:n]), -1) {
+			switch m[1] {
+			case "running", "runnable", "syscall", "IO wait", "sleep":
+				busy++
+			}
+		}
+		if busy > 1 { // the dumping goroutine itself is "running"
+			return false
+		}
+		time.Sleep(150 * time.Millisecond)
+	}
+	return true
+}
+
 // WorkerMain: one JSON Doc per line on stdin, one JSON Result per line on stdout.
 func WorkerMain() {
 	os.Unsetenv("TASK_X_REMOTE_TASKFILES")
@@ -469,7 +493,7 @@ func WorkerMain() {
 				buf := make([]byte, 1<<18)
 				n := runtime.Stack(buf, true)
 				ph, _ := curPhase.Load().(string)
-				r = Result{Class: "timeout", Stack: string(buf[:n]), Phase: ph}
+				r = Result{Class: "timeout", Stack: string(buf[:n]), Phase: ph, Deadlock: allBlocked()}
 				timedOut = true
 			}
 			b, _ := json.Marshal(r)
